@@ -410,6 +410,11 @@ def b_len(x):
 
 def b_range(*args):
   if any(isinstance(a, sym.Sym) and sym.concrete_int(a) is None for a in args):
+    # solver-aided: bounds forced to a single value by the path condition
+    forced = [sym.concretize(a) if isinstance(a, sym.Sym) else a for a in args]
+    if all(f is not None for f in forced):
+      args = forced
+  if any(isinstance(a, sym.Sym) and sym.concrete_int(a) is None for a in args):
     if len(args) == 1:
       return SRange(0, args[0], 1)
     if len(args) == 2:
